@@ -26,9 +26,12 @@ package zitiql
 //@   props C10
 //@   pure
 //@   ensures result != nil && len(result.Errors) == 0
+// the error list a parse returns is the caller's: its listener is made for this call and is not kept anywhere
 //@ func ParseWithDebug
-//@   props C10
+//@   props C10 C18
 //@   modifies *
+//@   callpre[each-parse-reports-into-a-listener-of-its-own] parse@1: fresh(arg2)
+//@   ensures[no-pooled-object-is-kept-or-handed-out] forall(x, poolOut[x] == old(poolOut[x]))
 //@ func Parse
 //@   props C10
 //@   modifies *
